@@ -78,7 +78,8 @@ def differential_case(draw, names):
     lib_only = any(t.get("node") and "inLibrary" in m.by_long[t["node"].casefold()].inherited
                    for t in gen_hed.flatten(tree))
     pp = p if side == "prefixed" else ""
-    return {"pairing": name, "side": side, "alone": version, "mutation": mutation,
+    order = list(draw(st.permutations(range(len(group_spec)))))
+    return {"pairing": name, "side": side, "alone": version, "mutation": mutation, "order": order,
             "text_alone": gen_hed.render(tree), "defs_alone": gen_hed.def_strings(ann["defs"]),
             "text_group": gen_hed.render(prefix_tree(tree, pp)), "defs_group": prefix_defs(ann["defs"], pp),
             "lib_only": lib_only, "ntags": gen_hed.count_tags(tree),
@@ -95,12 +96,14 @@ def codes(text, defs, schema):
 
 def oracle_differential(case):
     out = Outcome()
-    group = hedenv.schema(PAIRINGS[case["pairing"]][0])
+    spec = PAIRINGS[case["pairing"]][0]
+    group = hedenv.schema(tuple(spec[i] for i in case.get("order", range(len(spec)))))   # any order of the version list
     alone = hedenv.schema(case["alone"])
     a = codes(case["text_alone"], case["defs_alone"], alone)
     g = codes(case["text_group"], case["defs_group"], group)
     out.nontrivial = case["ntags"] >= 2 and (case["lib_only"] or bool(case["mutation"]))
-    out.classes = ("side:" + case["side"],) + (("library-node",) if case["lib_only"] else ()) + \
+    out.classes = ("side:" + case["side"], "list-order:" + "".join(map(str, case.get("order", [])))) + \
+                  (("library-node",) if case["lib_only"] else ()) + \
                   (("mutated",) if case["mutation"] else ())
     if a != g:
         diff = sorted(set((a - g) | (g - a)))
@@ -114,6 +117,18 @@ def oracle_differential(case):
             c = codes(f"{bad}{first}", [], group)
             if "TAG_NAMESPACE_PREFIX_INVALID" not in c:
                 out.bad("bad-prefix-not-reported", f"{bad}{first!r} -> {dict(c)}")
+            # ... also when a single schema (no prefix, or one prefix) is all that is loaded
+            c = codes(f"{bad}{first}", [], alone)
+            if "TAG_NAMESPACE_PREFIX_INVALID" not in c:
+                out.bad("bad-prefix-not-reported:single-schema", f"{case['alone']}: {bad}{first!r} -> {dict(c)}")
+            single = hedenv.schema("zz:" + case["alone"])
+            for t in (f"{bad}{first}", first):
+                c = codes(t, [], single)
+                if "TAG_NAMESPACE_PREFIX_INVALID" not in c:
+                    out.bad("bad-prefix-not-reported:single-prefixed-schema", f"zz:{case['alone']}: {t!r} -> {dict(c)}")
+            c = codes(f"zz:{first}", [], single)
+            if c != codes(first, [], alone):
+                out.bad("loaded-prefix-rejected:single-prefixed-schema", f"zz:{case['alone']}: zz:{first!r} -> {dict(c)}")
     return out
 
 
